@@ -389,7 +389,7 @@ func (t *State) Play(blockid []byte) error {
 	return t.PlayAndRepost(blockid, false, true)
 }
 
-func (t *State) PlayForMiner(blockid []byte) error {
+func (t *State) PlayForMiner(blockid []byte) (err error) {
 	batch := t.NewBatch()
 	block, blockErr := t.sctx.Ledger.QueryBlock(blockid)
 	if blockErr != nil {
@@ -402,10 +402,9 @@ func (t *State) PlayForMiner(blockid []byte) error {
 	}
 	t.utxo.Mutex.Lock()
 	defer t.utxo.Mutex.Unlock() // lock guard
-	var err error
 	defer func() {
 		if err != nil {
-			t.clearBalanceCache()
+			t.forgetFailedPlay()
 		}
 	}()
 	for _, tx := range block.Transactions {
@@ -452,7 +451,7 @@ func (t *State) PlayForMiner(blockid []byte) error {
 // 执行和发送区块
 // PlayAndRepost 执行一个新收到的block，要求block的pre_hash必须是当前vm的latest_block
 // 执行后会更新latestBlockid
-func (t *State) PlayAndRepost(blockid []byte, needRepost bool, isRootTx bool) error {
+func (t *State) PlayAndRepost(blockid []byte, needRepost bool, isRootTx bool) (playErr error) {
 	batch := t.ldb.NewBatch()
 	block, blockErr := t.sctx.Ledger.QueryBlock(blockid)
 	if blockErr != nil {
@@ -460,6 +459,11 @@ func (t *State) PlayAndRepost(blockid []byte, needRepost bool, isRootTx bool) er
 	}
 	t.utxo.Mutex.Lock()
 	defer t.utxo.Mutex.Unlock()
+	defer func() {
+		if playErr != nil {
+			t.forgetFailedPlay()
+		}
+	}()
 	// 下面开始处理unconfirmed的交易
 	unconfirmToConfirm, undoDone, err := t.processUnconfirmTxs(block, batch, needRepost)
 	if err != nil {
@@ -883,6 +887,13 @@ func (t *State) QueryTransaction(txid []byte) (*pb2.Transaction, error) {
 		AuthRequire: ltx.AuthRequire,
 	}
 	return tx, nil
+}
+
+// forgetFailedPlay drops what a block play that never reached storage left in memory: the transactions
+// applied before the failure have already moved balances, cached outputs and the total supply
+func (t *State) forgetFailedPlay() {
+	t.ClearCache()
+	t.utxo.ReloadUtxoTotal()
 }
 
 func (t *State) clearBalanceCache() {
